@@ -15,6 +15,9 @@
      10 (L bytes)                       PeerId::from_bytes
      11 (L bytes) ORC                   Multiaddr::try_from: valid, empty, trailing /p2p id (model of Formats.v)
      17 (L bytes)                       Cid::read_bytes (model of Formats.v)
+     18 (L der)                         TLS certificate parse (opaque: returns, allocation bound; feature worker)
+     19 (L bytes)                       WebRTC extract_framed_message + WebRtcMessage::decode (feature worker)
+     21 (L bytes)                       yamux Connection fed the bytes (opaque: returns, allocation bound)
      12 hdr (L (L name)) (L payload)     webrtc_listener_negotiate(names, payload, header_received)
      13 (L proto) (L (L payload))        WebRtcDialerState::propose(proto, []) then register_response per payload
      14 <C02 case>                      NoiseSocket writer -> tampered wire -> reader (coq/C02 model and oracle)
@@ -221,6 +224,8 @@ Inductive case :=
 | CPeerId (b : bytes)
 | CMaddr (b : bytes) (o : oracle)
 | CCid (b : bytes)
+| COpaque (kind : N) (b : bytes)
+| CWebRtc (b : bytes)
 | CWebListen (hdr : bool) (names : list bytes) (payload : bytes)
 | CWebDial (proto : bytes) (ops : list bytes)
 | CEmbed (kind : N) (raw : list N)
@@ -242,6 +247,8 @@ Definition p_case : parser case :=
   else if kind =? 10 then let* b := pL in pret (CPeerId b)
   else if kind =? 11 then let* b := pL in let* o := p_orc in pret (CMaddr b o)
   else if kind =? 17 then let* b := pL in pret (CCid b)
+  else if (kind =? 18) || (kind =? 21) then let* b := pL in pret (COpaque kind b)
+  else if kind =? 19 then let* b := pL in pret (CWebRtc b)
   else if kind =? 12 then let* h := pBool in let* ns := plist pL in let* pl := pL in pret (CWebListen h ns pl)
   else if kind =? 13 then let* p := pL in let* ops := plist pL in pret (CWebDial p ops)
   else if (14 <=? kind) && (kind <=? 16) then (fun l => Some (CEmbed kind l, []))
@@ -263,7 +270,7 @@ Definition rt_bytes_ok (r : rt_case) : bool :=
 Definition input_of (c : case) : bytes :=
   match c with
   | CKad _ b _ | CMsm b | CFrames _ b | CRps b | CKey b _ | CNoise b _ | CIdent _ _ b _
-  | CBitswap b _ | CPrefix b | CPeerId b | CMaddr b _ | CCid b => b
+  | CBitswap b _ | CPrefix b | CPeerId b | CMaddr b _ | CCid b | COpaque _ b | CWebRtc b => b
   | CWebListen _ _ b => b
   | CWebDial _ ops => concat ops
   | CEmbed _ _ => []
@@ -302,6 +309,12 @@ Definition dump_recv (r : recv) : list N :=
    measured window; their buffers are pinned exactly by the embedded trace, the allocation field
    only guards against runaway growth *)
 Definition EMBED_BOUND : N := 268435456.
+
+Definition YAMUX_KNOWN : N := 777.
+
+(* opaque third-party parsers: TLS certificates (x509-parser / webpki), the yamux connection *)
+Definition opaque_bound (kind len : N) : N :=
+  if kind =? 21 then YAMUX_BOUND else alloc_bound len + TLS_CONST.
 
 Definition run_kad (k : nat) (b : bytes) (o : oracle) : list N :=
   let raw := match dec_kmsg b with Some m => 1 :: dump_kmsg m | None => [0] end in
@@ -392,6 +405,25 @@ Definition run (c : case) : list N :=
          then [1; b2n (is_nil b)] ++ match maddr_last_p2p b with Some id => 1 :: id | None => [0] end
          else [0])
   | CCid b => hdr (blen b) 0 (match cid_read b with Some c => 1 :: eL c | None => [0] end)
+  | COpaque k b =>
+      (* kind 21: an input that contains the trigger of known finding class 1 is not predicted
+         beyond "first frame => the addition is reached" (777 1 = it panicked, 777 2 = outcome
+         not predicted); everything else must return within the bound *)
+      if (k =? 21) && yamux_first_frame_trigger b then [YAMUX_KNOWN; 1]
+      else if (k =? 21) && yamux_syn_credit_overflow (S (length b)) b then [YAMUX_KNOWN; 2]
+      else [1; opaque_bound k (blen b); 0]
+  | CWebRtc b =>
+      hdr (blen b) 0
+        (match webrtc_extract b with
+         | WfNeedMore => [0]
+         | WfErr => [1]
+         | WfFrame body rest =>
+             2 :: eL body ++ eL rest ++
+             match webrtc_message body with
+             | Some (p, f) => 1 :: eO p ++ [enc_opt f]
+             | None => [0]
+             end
+         end)
   | CWebListen h ns pl =>
       hdr (blen pl) 0
         (match wl_negotiate ns pl h with
@@ -432,6 +464,7 @@ Definition bound_of (c : case) : N :=
   | CFrames None s => recv_alloc_bound (blen s) (blen s)
   | CRt (RtFrames m fs) => recv_alloc_bound m (blen (frames_of fs))
   | CEmbed _ _ => EMBED_BOUND
+  | COpaque k b => opaque_bound k (blen b)
   | CRt (RtKad m k) => alloc_bound_kad (N.of_nat k) (blen (enc_kmsg m))
   | CKad k b _ => alloc_bound_kad (N.of_nat k) (blen b)
   | CRt (RtMsm m) => alloc_bound (blen (V.C03.Model.encode_msg m))
@@ -494,4 +527,14 @@ Definition prop_ok (case trace : list N) : bool :=
       end
   end.
 
-Definition known_class (case trace : list N) : N := 0.
+(* known finding class 1: the yamux crate's SYN-credit addition overflows (a panic where overflow
+   checks are compiled in); recognised only on a kind-21 case whose trace is not a normal return *)
+Definition known_class (case trace : list N) : N :=
+  match decode_case case with
+  | Some (COpaque 21 b) =>
+      match trace with
+      | 1 :: _ => 0
+      | _ => if yamux_syn_credit_overflow (S (length b)) b then 1 else 0
+      end
+  | _ => 0
+  end.
